@@ -14,6 +14,7 @@ mod fam_ext;
 mod fam_partial;
 mod fam_pset;
 mod fam_store;
+mod fam_tpe;
 mod fam_validate;
 mod gen;
 mod render;
@@ -64,6 +65,7 @@ fn family(name: &str) -> Option<(Runner, Driver)> {
         "conform" => (fam_conform::run, fam_conform::drive),
         "validate" => (fam_validate::run, fam_validate::drive),
         "partial" => (fam_partial::run, fam_partial::drive),
+        "tpe" => (fam_tpe::run, fam_tpe::drive),
         _ => return None,
     })
 }
